@@ -171,6 +171,31 @@ def _layout_shard(shard, n, tier, seed, budget_s):
                 if got != want:
                     rep["violations"].append({"key": "multi-packed:%s:%d" % ("-".join(segs), fnkind), "summary": "several packed arguments `%s` called as `%s`: expected %s, got %s" % (fn, call, want, got),
                                               "case": {"src": src, "expected": want, "real": got}})
+    # captures next to parameter patterns: the body of a function whose parameters are patterns (tuple, map, renamed map keys,
+    # string keys, defaults) reads a variable of the enclosing scope - also one that is spelled like a key of the pattern, which
+    # the pattern does not bind. Function / generator / inner closure, enclosing function / top level.
+    PATS = [("|v|", "5"), ("|(v, w)|", "(5, 6)"), ("|{v}|", "{v: 5}"), ("|{k as v}|", "{k: 5}"), ("|{'k' as v}|", "{k: 5}"), ("|(a, {k as v})|", "(1, {k: 5})"),
+            ("|{k as v, j}|", "{k: 5, j: 1}"), ("|{j, k as v}|", "{k: 5, j: 1}"), ("|a, {k as v}|", "1, {k: 5}"), ("|{k as v}, a = 2|", "{k: 5}"), ("|v = 5|", ""),
+            ("|{k as _, j as v}|", "{k: 0, j: 5}"), ("|(a, ({k as v}, b))|", "(1, ({k: 5}, 2))")]
+    for (params, args), outer_name, kind, scope in itertools.product(PATS, ("k", "z", "j_"), ("fn", "generator", "inner"), ("function", "top")):
+        idx += 1
+        if idx % n != shard:
+            continue
+        body = {"fn": ["  v + %s" % outer_name], "generator": ["  yield v + %s" % outer_name], "inner": ["  g_ = || v + %s" % outer_name, "  g_()"]}[kind]
+        call = "f_(%s)" % args + (".to_list()" if kind == "generator" else "")
+        lines = ["%s = 100" % outer_name, "f_ = %s" % params] + body + ["r_ = try", "  %s" % call, "catch e_", "  '#E'"]
+        if scope == "function":
+            src = "outer_ = ||\n" + "".join("  " + l + "\n" for l in lines) + "  r_\nprint outer_()\n"
+        else:
+            src = "".join(l + "\n" for l in lines) + "print r_\n"
+        want = "[105]" if kind == "generator" else "105"
+        rr = w.exec(src, timeout=20, limit_ms=3000)
+        rep["evaluations"] += 1; rep["layouts"] += 1; rep["distinct"] += 1
+        c01._passengers(rep, rr, src)
+        got = rr.get("stdout", "").rstrip("\n") if rr.get("outcome") == "ok" else "<%s: %s>" % (rr.get("outcome"), (rr.get("error") or "")[:80])
+        if got != want:
+            rep["violations"].append({"key": "capture-pattern:%s:%s:%s:%s" % (params, outer_name, kind, scope), "summary": "capture next to a parameter pattern `%s` (outer `%s`, %s, %s): expected %s, got %s" % (params, outer_name, kind, scope, want, got),
+                                      "case": {"src": src, "expected": want, "real": got}})
     w.close()
     return rep
 
